@@ -105,8 +105,9 @@ def finish(args, sd, meta, keep):
             old_checks = old.get('checks', {})
             old_checks.update(meta['checks'])
             meta['checks'] = old_checks
-            if not args.needs and old.get('needs_to_manifest'):
-                meta['needs_to_manifest'] = old['needs_to_manifest']
+            for k, v in old.items():            # keep hand-added fields (history, round, ...)
+                if k not in meta:
+                    meta[k] = v
         if args.needs:
             meta['needs_to_manifest'] = args.needs
         meta['at'] = time.strftime('%Y-%m-%d %H:%M:%S')
